@@ -128,7 +128,7 @@ def _full_alphabet(m, env, thorough):
           sig[2], n - sig[2], 2**256 + 5]
     rs.append(sig[1])
     hs = [b"\x00" * 32, b"\xff" * 32, n.to_bytes(32, "big"), (n - 1).to_bytes(32, "big"), hz, b"",
-          b"\x01", bytes(range(64))]
+          b"\x01", bytes(range(64)), b"0123456789abcdef" * 4, b"ff" * 16]
     if thorough:
         for _ in range(6):
             rs.append(m.mul(m.G, rg.randrange(1, n))[0])
